@@ -82,6 +82,32 @@ def returned(cat):
     print("RETURNED " + json.dumps(rows, sort_keys=True), flush=True)
 
 
+def arm():
+    """Called right before the step that is going to be interrupted. With W_EXC_AT_LINE=k a KeyboardInterrupt is raised
+    before the k-th executed line of library code from here on (an interrupt between two file-system operations, with
+    stack unwinding); with W_EXC_COUNT the lines are only counted."""
+    at = int(os.environ.get("W_EXC_AT_LINE", "0"))
+    if not (at or os.environ.get("W_EXC_COUNT")):
+        return
+    seen = [0]
+
+    def tracer(frame, event, arg):
+        if "/yaw/" not in frame.f_code.co_filename:
+            return None
+        if event == "line":
+            seen[0] += 1
+            if seen[0] == at:
+                sys.settrace(None)
+                raise KeyboardInterrupt(f"injected before line {at}")
+        return tracer
+
+    if not at:
+        import atexit
+
+        atexit.register(lambda: print(f"LINES {seen[0]}", flush=True))
+    sys.settrace(tracer)
+
+
 def main():
     wl, phase, base = sys.argv[1:4]
     import logging
@@ -114,6 +140,7 @@ def main():
             else:
                 conf.to_file(os.path.join(base, "conf.yml"))
     elif phase == "work":
+        pass
         if wl in ("W1", "W1p", "W1P"):  # W1p/W1P: two workers, the writer is a process of its own
             kill_at = int(os.environ.get("W1P_KILL_AT_CHUNK", "0"))
             if wl == "W1P" and kill_at:
@@ -132,8 +159,10 @@ def main():
                     return orig(self)
 
                 readers.DataFrameReader._get_next_chunk = dying
+            arm()
             returned(make(R, new, chunksize=1 if wl == "W1P" else 3))
         elif wl in ("W2", "W2p"):
+            arm()
             returned(make(R, new, chunksize=3, overwrite=True))
         elif wl == "W1b":
             make(R, big_frame(), chunksize=100)
@@ -142,13 +171,16 @@ def main():
         elif wl == "W4":
             Catalog(R).build_trees(B1)
         elif wl == "W5":
-            Catalog(R).build_trees(B2)
+            cat = Catalog(R)
+            arm()
+            cat.build_trees(B2)
         elif wl == "W5f":  # forced rebuild over trees of another binning
             Catalog(R).build_trees(B2, force=True)
         elif wl == "W6":
             Catalog(R).build_trees(None)
         elif wl in ("W7", "W8", "W9"):
             cf, cd, conf = products("new")
+            arm()
             if wl == "W7":
                 cf.to_file(os.path.join(base, "cf.hdf"))
             elif wl == "W8":
